@@ -193,13 +193,16 @@ fn check_case(ci: usize, case: &Value) -> Option<Value> {
 }
 
 fn check_name(case: &Value) -> Option<Value> {
-    let name = case["name"].as_str().unwrap();
+    let name = &case["name"].as_str().unwrap().replace('~', "\u{e9}");
     let valid = case["valid"].as_bool().unwrap();
     let mk = || {
         log4rs::Config::builder()
             .logger(log4rs::config::Logger::builder().build(name, log::LevelFilter::Info))
     };
-    let strict = mk().build(log4rs::config::Root::builder().build(log::LevelFilter::Info));
+    let strict = match catch(|| mk().build(log4rs::config::Root::builder().build(log::LevelFilter::Info))) {
+        Ok(r) => r,
+        Err(p) => return Some(json!({"what": "strict build panicked on a logger name", "error": p})),
+    };
     if strict.is_ok() != valid {
         return Some(json!({"what": "logger name validity (strict)", "expected_valid": valid}));
     }
@@ -209,7 +212,10 @@ fn check_name(case: &Value) -> Option<Value> {
             return Some(json!({"what": "invalid name not reported exactly", "reported": err_set(e.errors())}));
         }
     }
-    let (cfg, _) = mk().build_lossy(log4rs::config::Root::builder().build(log::LevelFilter::Info));
+    let (cfg, _) = match catch(|| mk().build_lossy(log4rs::config::Root::builder().build(log::LevelFilter::Info))) {
+        Ok(r) => r,
+        Err(p) => return Some(json!({"what": "lossy build panicked on a logger name", "error": p})),
+    };
     if (cfg.loggers().len() == 1) != valid {
         return Some(json!({"what": "logger name validity (lossy)", "expected_valid": valid}));
     }
